@@ -65,6 +65,7 @@ def nist(name, c):
     S("all_ff", "ff"*n, "scalar_out_of_range") if name != "p521" else S("all_ff", "ff"*n, "scalar_out_of_range")
     S("two_pow_top", be((1 << (8*n)) - 2, n), "scalar_out_of_range")
     S("order_times_2_minus_1" if 2*order-1 < (1<<(8*n)) else "order_plus_2", be(min(2*order-1, (1<<(8*n))-1) if 2*order-1 < (1<<(8*n)) else order+2, n), "scalar_out_of_range")
+    S("valid_one", be(1, n), "valid_extreme"); S("valid_two", be(2, n), "valid_extreme"); S("valid_order_minus_1", be(order-1, n), "valid_extreme")
     return dict(group=name, elem_len=n+1, scalar_len=n, endian='big', order_hex='%x' % order, p_hex='%x' % p, elems=[e for e in elems if e], scalars=scalars)
 
 # ---- ristretto255 (RFC 9496) and curve25519
@@ -125,6 +126,7 @@ def ristretto():
     S("two_order", 2*L, "scalar_out_of_range"); S("order_times_8_minus_1", 8*L-1, "scalar_out_of_range")
     S("two_255_minus_1", 2**255-1, "scalar_out_of_range"); S("all_ff", 2**256-1, "scalar_out_of_range")
     S("one_plus_order", 1+L, "scalar_out_of_range")
+    S("valid_one", 1, "valid_extreme"); S("valid_two", 2, "valid_extreme"); S("valid_order_minus_1", L-1, "valid_extreme")
     return dict(group="ristretto255", elem_len=32, scalar_len=32, endian='little', order_hex='%x' % L, p_hex='%x' % P, elems=elems, scalars=scalars)
 
 def curve25519():
